@@ -115,6 +115,21 @@ static void continuous_families(unsigned long long& unit)
 				else mc::maxi("quantile_err_over_tol", std::fabs(q - x) / (std::sqrt(2.0) * sg * 1e-4), key);
 			}
 		}
+	// two-dimensional normal density: product of the two one-dimensional ones
+	if(mc::mine(unit++))
+		for(double mx : {0.0, -3.0})
+			for(double my : {1.0, 1e3})
+				for(double sx : {1e-3, 2.0})
+					for(double sy : {0.5, 50.0})
+						for(int i = -8; i <= 8; i++)
+							for(int j = -8; j <= 8; j++)
+							{
+								double x = mx + sx * i / 2.0, y = my + sy * j / 2.0;
+								std::pair<double, double> mean{mx, my}, sig{sx, sy};
+								double p2 = PDF_Gauss_2D(x, y, mean, sig), pp = PDF_Gauss(x, mx, sx) * PDF_Gauss(y, my, sy);
+								g_cases++;
+								if(!(std::fabs(p2 - pp) <= 16 * mc::U_ * pp * (1 + i * i + j * j) + 1e-300)) fail("continuous", "Gauss_2D(" + mc::dec(mx) + "," + mc::dec(my) + "," + mc::dec(sx) + "," + mc::dec(sy) + "),x=" + mc::dec(x) + ",y=" + mc::dec(y), "gauss_2d_not_product_of_1d", "PDF_Gauss_2D = " + mc::dec(p2) + " product of the 1D densities " + mc::dec(pp));
+							}
 	// exponential and Maxwell-Boltzmann
 	for(double m : {1e-3, 1.0, 50.0})
 	{
